@@ -55,6 +55,10 @@ def run_one(args):
 def failures(pid, inst, r):
     bad = []
     L = r["lines"]
+    if r["status"] == "OK" and "NOSEARCH" in L and inst.get("maintenanceSlots"):
+        # the search is skipped only for instances without maintenance slots (Network::maintenance_considered)
+        return [("search-skipped", "the local search did not run although the instance lists %d maintenance slot(s)"
+                 % len(inst["maintenanceSlots"]))]
     if r["status"] != "OK" or "NOSEARCH" in L:
         return bad
     if r["dstatus"] != "OK":
